@@ -768,6 +768,11 @@ func ratio(nu, de *Cell, confidence float64, r *rand.Rand, ratios []float64) (ce
 	low = percentile(ratios, p)
 	high = percentile(ratios, 1-p)
 	center = median(ratios)
+	if low > center {
+		// For intervals narrower than one resample (confidence < 1/N)
+		// the lower percentile interpolates past the median.
+		low = center
+	}
 	return
 }
 
